@@ -147,3 +147,18 @@ package zap
 
 //@ pkgstate monitorFreq readonly period of the cache monitor
 //@ pkgstate emptyVecPostingsList readonly shared sentinel of the vector postings
+
+// ---- C10 (vectors build): the vector section's working memory is reset completely ----
+//@ clean vectorIndexOpaque.init zero
+//@ clean vectorIndexOpaque.bytesWritten zero
+//@ clean vectorIndexOpaque.lastNumVecs exempt sizing hint for the next build's maps only
+//@ clean vectorIndexOpaque.lastNumFields exempt sizing hint for the next build's maps only
+//@ clean vectorIndexOpaque.fieldAddrs nil
+//@ clean vectorIndexOpaque.vecIDMap nil
+//@ clean vectorIndexOpaque.vecFieldMap nil
+//@ clean vectorIndexOpaque.tmp0 len0
+//@ func (*vectorIndexOpaque).Reset returns (err)
+//@ thin
+//@ tags [C10]
+//@ ensures clean(v)
+//@ end
